@@ -148,5 +148,35 @@ theorem returns_via_final_results {tr : List String} {e : Ending} (hx : Exec Gen
   have h := all_paths mF Gen.solveMainBody ⟨0, false⟩ _ final_all hx
   simpa using h
 
+/-! ### `solve` always returns a result object -/
+
+structure QSo where
+  optim : Bool
+  runs : Nat
+  retRes : Bool
+  retOther : Bool
+deriving DecidableEq, Repr
+
+/-- `optim`: an `OptimResults(...)` object has been constructed; `runs`: calls of `solve_main` (saturating at 2); `retRes`: `return
+    results` reached with a constructed object; `retOther`: any other way out by `return` (falling off the end included) -/
+def mSo : Mon QSo := ⟨fun q a =>
+  if a == "optim" then { q with optim := true }
+  else if a == "run" then { q with runs := min (q.runs + 1) 2 }
+  else if a == "ret:results" then { q with retRes := q.optim, retOther := q.retOther || !q.optim }
+  else if a == "ret:None" then { q with retOther := true }
+  else q⟩
+
+theorem solve_all : allReach mSo Gen.solveBody ⟨false, 0, false, false⟩
+    (fun q e => e == .ret && q.retRes && !q.retOther) = true := by decide +kernel
+
+/-- every execution of the skeleton of `solve` (defaults, validation, first run, any number of hard restarts, packaging) ends by
+    `return results` with `results` an `OptimResults` object constructed on that path — never by falling off the end, never by a
+    `raise` statement of `solve` itself (`assert`s and exceptions raised inside callees are outside the skeleton) -/
+theorem solve_returns_result {tr : List String} {e : Ending} (hx : Exec Gen.solveBody tr e) :
+    e = .ret ∧ (mSo.run ⟨false, 0, false, false⟩ tr).retRes = true ∧ (mSo.run ⟨false, 0, false, false⟩ tr).retOther = false := by
+  have h := all_paths mSo Gen.solveBody ⟨false, 0, false, false⟩ _ solve_all hx
+  simp only [Bool.and_eq_true, beq_iff_eq, Bool.not_eq_true'] at h
+  exact ⟨h.1.1, h.1.2, h.2⟩
+
 end SolveMainPaths
 end Dfols
